@@ -19,14 +19,17 @@ Standing hypotheses of the whole-parser theorems (all explicit in every statemen
   children (an input of ≥ 4 GiB) would wrap the counter.  Not a hidden assumption: see `incr`/`isArrFrame` in the
   model and `topOK_bump` in `Proofs/ParseMach.lean`.
 * numbers: `hexp : ExpSmall bs` — every number token of `bs` (a token that `Spec.Number.scanToken` finds at any
-  index) has a written exponent of absolute value below 100000 (the `int exp` accumulator of `parseNumber` saturates
-  there: known finding F6).  This is the ONLY number-related hypothesis: no assumption about the number model is left.
+  index) has a written exponent of absolute value below 100000 *or is at most 9600 bytes long* (the `int exp`
+  accumulators of `parseNumber` / `SetDecimal` saturate there: known finding F6, which needs a longer token; in a short
+  one the saturation is harmless: `C04_parseNumber_correct'`).  Every text of at most 9600 bytes satisfies it
+  (`expSmall_of_short`), so for such texts the theorems hold unconditionally.
+  This is the ONLY number-related hypothesis: no assumption about the number model is left.
   The former hypothesis `NumberCorrectOn bs` (agreement with the reference at *every* position holding `-` or a digit) has
   been discharged — and was in fact FALSE for valid documents such as `["1.5.3"]`: `AtofNative` is handed the rest of
   the buffer and `SetDecimal` swallows a second `.` (`Props/C04.lean`: `C04_native_guard_needed`), so at the `1.5` of
   `1.5.3` the model's *value* is not the reference's.  The parser proofs rest on the weaker contract `NumberOK bs`
   (`Proofs/ParseInv.lean`), which holds for every `ExpSmall` text (`Proofs/ParseNumberOK.lean`: `numberOK_of_exp`, from
-  `NumberFacts` = (a) `C04_parseNumber_correct`, (b) `accumulate_spec`, (c) `C04_parseNumber_shape` +
+  `NumberFacts` = (a) `C04_parseNumber_correct'`, (b) `accumulate_spec`, (c) `C04_parseNumber_shape` +
   `C04_native_never_faults`, (d) `NumberPad.parseNumber_sim`: the scan stops at the sentinel `x`, so the outcome is
   independent of the padding): a position where `nativeGuard` fails is *doomed* — the byte after the token is `.` or a
   digit, which can follow no JSON value — so if a value starts there the reference rejects the text and the parser
@@ -330,6 +333,16 @@ example : ∃ r, parseDoc 32 runPad (List.replicate 16 (some (.hole 7))) Doc.fre
 example : ∃ r, parse 16 runPad exDoc = .ok r ∧ (r.err = 0 ↔ Json.accepts exDoc = true) :=
   C01_accept_iff_fresh 16 (by decide) (by decide) runPad exDoc (by decide) (by decide) (by decide) (by decide)
     (expSmall_of_check _ (by decide +kernel))
+
+/-- … and on `[1e100000]`: every text of at most 9600 bytes satisfies `ExpSmall` (`expSmall_of_short`: in a short token
+    an exponent of 100000 and more saturates the `int exp` accumulators harmlessly), so for such texts the theorem
+    holds unconditionally.  The document is rejected (`kParseErrorInfinity`) by the model and by the reference. -/
+example : ∃ r, parse 16 runPad [0x5B, 0x31, 0x65, 0x31, 0x30, 0x30, 0x30, 0x30, 0x30, 0x5D] = .ok r ∧
+    (r.err = 0 ↔ Json.accepts [0x5B, 0x31, 0x65, 0x31, 0x30, 0x30, 0x30, 0x30, 0x30, 0x5D] = true) :=
+  C01_accept_iff_fresh 16 (by decide) (by decide) runPad _ (by decide) (by decide) (by decide) (by decide)
+    (expSmall_of_short (by decide))
+example : errOff (parse 16 runPad [0x5B, 0x31, 0x65, 0x31, 0x30, 0x30, 0x30, 0x30, 0x30, 0x5D]) = some (3, 9) ∧
+    Json.accepts [0x5B, 0x31, 0x65, 0x31, 0x30, 0x30, 0x30, 0x30, 0x30, 0x5D] = false := by decide +kernel
 
 /-- **doomed positions** (`C04_native_guard_needed`): `["1.5.3"]` is a valid document (the `1.5` sits inside a string:
     this is where the old per-input hypothesis `NumberCorrectOn` was false); `[1.5.3]`, `1.5.` and `[01]` are invalid —
